@@ -108,6 +108,9 @@ type Unicode struct {
 	N int `db:"añb"`
 	Z int `db:"日本"`
 	U int `db:"_u1"`
+	D int `db:"n٣"` // a decimal digit that is not ASCII
+	E int `db:"n"`
+	F int `db:"ｘ３ｙ"`
 }
 
 type Numeric struct {
@@ -228,6 +231,11 @@ type IntSlice []int
 type StrSlice []string
 type PersonSlice []Person
 
+// named slice types over struct types the statements insert: not the `[]T` / `[]*T` a bulk insert takes
+type AddressSlice []Address
+type PersonPtrs []*Person
+type PersonPtr *Person
+
 type Money struct{ cents int64 }
 
 func (m Money) Value() (driver.Value, error) { return m.cents, nil }
@@ -241,6 +249,43 @@ func (m *Money) Scan(v any) error {
 		return fmt.Errorf("cannot scan %T into Money", v)
 	}
 	return nil
+}
+
+// a value type with an IsZero method that does not agree with "is the zero value of its type"
+// ({0, "EUR"} is not the zero value): omitempty goes by the zero value
+type Amount struct {
+	Cents int64
+	Cur   string
+}
+
+func (a Amount) IsZero() bool                 { return a.Cents == 0 }
+func (a Amount) Value() (driver.Value, error) { return a.Cents, nil }
+func (a *Amount) Scan(v any) error {
+	switch x := v.(type) {
+	case int64:
+		a.Cents = x
+	case nil:
+		a.Cents = 0
+	default:
+		return fmt.Errorf("cannot scan %T into Amount", v)
+	}
+	return nil
+}
+
+type Bill struct {
+	ID    int     `db:"id"`
+	Total Amount  `db:"total,omitempty"`
+	Tip   *Amount `db:"tip,omitempty"`
+	Note  string  `db:"note,omitempty"`
+}
+
+// members of interface types: the empty interface itself and defined types whose underlying type it is
+type Attr interface{}
+type Loose struct {
+	ID int          `db:"id"`
+	V  driver.Value `db:"v"`
+	A  Attr         `db:"a"`
+	X  any          `db:"x,omitempty"`
 }
 
 type Priced struct {
@@ -389,13 +434,13 @@ var zooSamples = []zooEntry{
 	{"Rec", Rec{}}, {"RecA", RecA{}}, {"RecRoot", RecRoot{}}, {"M", sqlair.M{}}, {"IntMap", IntMap{}}, {"KM", KM{}}, {"BadMap", BadMap{}},
 	{"S", sqlair.S{}}, {"IntSlice", IntSlice{}}, {"StrSlice", StrSlice{}}, {"PersonSlice", PersonSlice{}},
 	{"Priced", Priced{}}, {"TaggedEmbed", TaggedEmbed{}}, {"EmbedUnexported", EmbedUnexported{}},
-	{"EmbedNonStruct", EmbedNonStruct{}}, {"Mixed", Mixed{}}, {"Doc", Doc{}}, {"Diamond", Diamond{}}, {"Twice", Twice{}}, {"Tracked", Tracked{}}, {"BlobOpt", BlobOpt{}}, {"PtrScan", PtrScan{}}, {"Wide", Wide{}},
+	{"EmbedNonStruct", EmbedNonStruct{}}, {"Mixed", Mixed{}}, {"Doc", Doc{}}, {"Diamond", Diamond{}}, {"Twice", Twice{}}, {"Tracked", Tracked{}}, {"BlobOpt", BlobOpt{}}, {"PtrScan", PtrScan{}}, {"Wide", Wide{}}, {"Bill", Bill{}}, {"Loose", Loose{}},
 	{"TagLoneQuote", TagLoneQuote{}}, {"TagLoneDQuote", TagLoneDQuote{}}, {"TagLoneQuoteFlag", TagLoneQuoteFlag{}}, {"TagEmptyQuoted", TagEmptyQuoted{}}, {"TagEmptyDQuoted", TagEmptyDQuoted{}}, {"TagQuoteInside", TagQuoteInside{}}, {"TagSpace", TagSpace{}}, {"TagTrailingComma", TagTrailingComma{}}, {"TagTwoFlags", TagTwoFlags{}}, {"TagDash", TagDash{}}, {"TagStar", TagStar{}}, {"TagUnderscore", TagUnderscore{}}, {"TagMixedQuotes", TagMixedQuotes{}},
 	{"zoo2.Person", zoo2.Person{}}, {"zoo2.M", zoo2.M{}}, {"zoo2.IntSlice", zoo2.IntSlice{}},
 }
 
 // good types for statement generation (Prepare succeeds with them)
-var goodStructs = []string{"Person", "Address", "Manager", "Embed", "EmbedPtr", "Deep", "Deep4", "Contact", "AutoID", "AutoID", "Omit", "PtrFields", "Quoted", "Unicode", "Numeric", "Priced", "TaggedEmbed", "EmbedUnexported", "EmbedNonStruct", "Mixed", "Doc", "Diamond", "Twice", "Tracked", "BlobOpt", "PtrScan", "Wide"}
+var goodStructs = []string{"Person", "Address", "Manager", "Embed", "EmbedPtr", "Deep", "Deep4", "Contact", "AutoID", "AutoID", "Omit", "PtrFields", "Quoted", "Unicode", "Numeric", "Priced", "TaggedEmbed", "EmbedUnexported", "EmbedNonStruct", "Mixed", "Doc", "Diamond", "Twice", "Tracked", "BlobOpt", "PtrScan", "Wide", "Bill", "Loose"}
 var goodMaps = []string{"M", "IntMap", "KM"}
 var goodSlices = []string{"S", "IntSlice", "StrSlice", "PersonSlice"}
 
